@@ -12,7 +12,10 @@ import (
 	"testing"
 	"time"
 
+	client "github.com/liftbridge-io/liftbridge-api/v2/go"
 	nats "github.com/nats-io/nats.go"
+
+	"github.com/liftbridge-io/liftbridge/server/commitlog"
 
 	proto "github.com/liftbridge-io/liftbridge/server/protocol"
 )
@@ -84,6 +87,44 @@ func TestLbvcScenarioReplicationRequest(t *testing.T) {
 			}()
 		}
 	}
+	if len(problems) > 0 {
+		fmt.Printf("--- FAIL: LBVC-REPRODUCED (obligation %s): %s\n", os.Getenv("LBVC_OBLIGATION"), strings.Join(problems, "; "))
+		os.Exit(1)
+	}
+	s1.Stop()
+}
+
+// An acknowledgement for a message that arrived on a subject which is not valid UTF-8 (NATS subjects are arbitrary
+// bytes; a stream with a wildcard subject receives them) must not crash the partition leader.
+func TestLbvcScenarioAckForOddSubject(t *testing.T) {
+	defer cleanupStorage(t)
+	cfg := getTestConfig("a", true, 5050)
+	s1 := runServerWithConfig(t, cfg)
+	getMetadataLeader(t, 10*time.Second, s1)
+	op := &proto.RaftLog{Op: proto.Op_CREATE_STREAM, CreateStreamOp: &proto.CreateStreamOp{Stream: &proto.Stream{
+		Name: "foo", Subject: "foo.*", Partitions: []*proto.Partition{{Stream: "foo", Subject: "foo.*", Id: 0, ReplicationFactor: 1,
+			Replicas: []string{"a"}, Isr: []string{"a"}, Leader: "a"}}}}}
+	fut, err := s1.getRaft().applyOperation(context.Background(), op, nil)
+	if err != nil || fut.Error() != nil {
+		s1.Stop()
+		t.Skipf("setup failed: %v", err)
+	}
+	waitForPartition(t, 5*time.Second, "foo", 0, s1)
+	p := s1.metadata.GetPartition("foo", 0)
+	var problems []string
+	try := func(what string, f func()) {
+		defer func() {
+			if r := recover(); r != nil {
+				problems = append(problems, fmt.Sprintf("%s for a message received on subject %q panics: %v", what, "foo.\xff", r))
+			}
+		}()
+		f()
+	}
+	m := &commitlog.Message{Value: []byte("v"), AckInbox: "_INBOX.x", CorrelationID: "c", Headers: map[string][]byte{"subject": []byte("foo.\xff")}}
+	try("the acknowledgement", func() {
+		p.sendAck(&client.Ack{Stream: "foo", PartitionSubject: "foo.*", MsgSubject: string(m.Headers["subject"]), AckInbox: m.AckInbox, CorrelationId: m.CorrelationID})
+	})
+	try("the too-large negative acknowledgement", func() { p.sendTooLargeNack(m) })
 	if len(problems) > 0 {
 		fmt.Printf("--- FAIL: LBVC-REPRODUCED (obligation %s): %s\n", os.Getenv("LBVC_OBLIGATION"), strings.Join(problems, "; "))
 		os.Exit(1)
